@@ -154,3 +154,27 @@ package isaacdatabase
 //@   ensures [local-all] r1 == nil ==> r0
 //@   ensures [local-exactly] r1 == nil ==> bdel == old(bdel) + ite(r.End() <= old(heighti), 1, 0)
 //@   callsite Delete requires r.End() <= heighti && a0 == key
+
+// ---- C22: the operation pool hands out a de-duplicated set -------------------------------
+//
+// The callback OperationHashes runs on every stored record (verified on its own;
+// the captured variables are arbitrary values satisfying the stated invariant
+// of the collection: opsindex entries collected, each fact indexed by `facts`).
+//@ func ReadFrameHeaderOperation
+//@   trusted
+//@   pure
+//@   ensures r1 == nil ==> r0.Fact() != nil && r0.Operation() != nil
+//@ package github.com/spikeekips/mitum/isaac
+//@ func (PoolOperationRecordMeta).Fact
+//@   pure
+//@   ensures r0 != nil
+//@ func (PoolOperationRecordMeta).Operation
+//@   pure
+//@   ensures r0 != nil
+//@ package github.com/spikeekips/mitum/isaac/database
+//@ func (*TempPool).OperationHashes$3
+//@   prop C22
+//@   requires nfilter != nil && facts != nil && len(ops) == limit && opsindex < limit && limit < 4611686018427387904
+//@   requires forall(string(q), has(facts, q) ==> facts[q] < opsindex)
+//@   fnparam nfilter pure
+//@   ensures [local-bounded] r1 == nil ==> opsindex <= limit && (opsindex == limit ==> !r0)
